@@ -159,6 +159,30 @@ def crosses_instability(doc, engines):
     return False
 
 
+VALUE_KEY = {"PointLoad": "values", "SolidBodyForce": "values", "SolidBodyGravity": "gravity", "SolidBodyPressure": "pressure", "SolidBodyCauchyStress": "stress"}
+
+
+def cold_fork_at(w_live, j, i):
+    """A world rebuilt from the document in which every ramped load item is *constructed* at the
+    value of the ramp model (not updated to it), ramped boundaries are updated: what the item's
+    update(value) must be equivalent to."""
+    cur = RampModel(w_live).at(j, i)
+    d = copy.deepcopy(w_live.doc)
+    for tgt, v in cur.items():
+        if tgt.startswith("item:"):
+            k = int(tgt[5:])
+            key = VALUE_KEY.get(d["items"][k]["type"])
+            if key is not None:
+                d["items"][k][key] = np.asarray(v, dtype=float).tolist() if not np.isscalar(v) else float(v)
+    fk = world.World(d)
+    for tgt, v in cur.items():
+        if tgt.startswith("bc:"):
+            fk.ramp_bc[tgt[3:]].update(v)
+        elif VALUE_KEY.get(d["items"][int(tgt[5:])]["type"]) is None:
+            fk.items[int(tgt[5:])].update(v)
+    return fk
+
+
 def neo_hooke_energy(F, mu):
     """Independent isochoric Neo-Hooke energy per quadrature point."""
     C = np.einsum("ki...,kj...->ij...", F, F)
@@ -234,8 +258,7 @@ class C15Monitor(jobsim.Monitor):
         if c["iter"] != 0:
             return
         j, i = c["step"], c["substep"]
-        fk = world.World(copy.deepcopy(eng.w.doc))
-        apply_model_ramp(fk, j, i)
+        fk = cold_fork_at(eng.w, j, i)
         d = dict(c["durable_start"])
         d["values"] = it["x"]
         fk.load(d)
